@@ -125,6 +125,8 @@ def eval_session(model, case):
     )
     bundle = {"twin": twin, "real": real, "model": mres, "min0": min0}
     custom = spec.get("kwargs", {}).get("itstat_options") in ("custom", "custom-same")
+    if real["fresh_len"] != 0:
+        return {"op_index": -1, "op": "constructor", "what": "records of a freshly constructed optimiser", "impl": real["fresh_len"], "model": 0}, bundle
     if real["opts_unchanged"] is not True:
         return {"op_index": -1, "op": "constructor", "what": "caller's itstat_options object unchanged", "impl": False, "model": True}, bundle
     nrows = 0
@@ -224,6 +226,8 @@ def session_oracle(case):
     min0 = D.flat(D.build(spec).minimizer())
     real = D.run_history(spec, ops, st, ct, clock0, ctl=case.get("ctl"))
     r = G.solve_oracle(spec, ops, st, ct, real["obs"], twin, min0, ctl=case.get("ctl"))
+    if r is None and real["fresh_len"] != 0:
+        r = {"fails": f"a freshly constructed optimiser already holds {real['fresh_len']} statistics records"}
     if r is None and real["opts_unchanged"] is not True:
         r = {"fails": "constructing the optimiser(s) modified the caller's itstat_options dictionary"}
     if r is None and real["transpose_ok"] is not True:
@@ -316,6 +320,34 @@ def check_session(ctx, model, case, origin="gen"):
     ctx.disagree("driver.session", small, {"what": mis2["what"], "op_index": mis2["op_index"], "value": mis2["impl"]},
                  {"what": mis2["what"], "value": mis2["model"]}, oracle=around)
     return False
+
+
+def check_session_exhaustive(ctx, model, depth):
+    """EVERY history of <= depth operations over a 9-operation alphabet (solve with maxiter 0/1/2 with and without
+    callback, a direct step(), switching nanstop on/off) on a PGM problem whose second step makes x non-finite,
+    nanstop initially on, iter0 = 3"""
+    import itertools
+
+    alphabet = [{"op": "solve", "maxiter": m, "cb": cb} for m in (0, 1, 2) for cb in (False, True)]
+    alphabet += [{"op": "step"}, {"op": "nanstop", "v": False}, {"op": "nanstop", "v": True}]
+    spec = {"cls": "pgm", "n": 2, "block": True, "has_eval": True,
+            "nan": {"at": 2, "who": "g", "pos": [1, 0], "val": "inf", "sanitise": True},
+            "kwargs": {"iter0": 3, "nanstop": True}}
+    n = 0
+    for d in range(1, depth + 1):
+        for seq in itertools.product(range(len(alphabet)), repeat=d):
+            ops = [dict(alphabet[i]) for i in seq]
+            if not any(o["op"] == "solve" for o in ops):
+                continue
+            k = D.max_steps(ops)
+            case = {"kind": "session", "spec": spec, "ops": ops, "step_ticks": [1 + (q % 3) for q in range(k + 1)],
+                    "cb_ticks": [5 + q for q in range(k + 1)], "clock0": 2}
+            ok = check_session(ctx, model, case, origin="exhaustive")
+            n += 1
+            if not ok and len(ctx.violations) >= 3:
+                return
+    ctx.count("session:exhaustive histories", n)
+    ctx.extra["session_exhaustive_scope"] = {"exhaustive": True, "histories": n, "depth": depth, "alphabet": alphabet, "spec": spec}
 
 
 def gen_session(ctx, cls=None, max_ops=None):
@@ -802,6 +834,8 @@ def correspond(ctx, model):
     check_itstat_setup(ctx, model)
     check_finite(ctx, model)
     check_transpose(ctx, model)
+    # 3b. exhaustive small scope of solve histories (depth 2 quick, 3 thorough)
+    check_session_exhaustive(ctx, model, 3 if ctx.thorough else 2)
     # 4. solve histories, every class in turn
     nsess = ctx.n(140, 700)
     for i in range(nsess):
